@@ -49,7 +49,7 @@ PROPS = {
  "C16": dict(cfgs=quick8,
    scope=lambda t: "a in S(w,r) x operand values of each of the ten non-fixed types (every 8-bit value, every 16-bit value in thorough, S-shaped 32/64-bit values, structured float/double patterns incl. specials) x 4 operators x {a op t, t op a, a op= t}",
    assumptions=COMMON_ASSUMPTIONS + ["fixed op= double does not compile and is not part of the API", "double(a) is taken from the library's own conversion (judged by C05)"]),
- "C17": dict(cfgs=cfgs4,
+ "C17": dict(cfgs=cfgs4, consteval="focus",
    scope=lambda t: "breadth-first search over operation histories from S(2,1) seeds with an alphabet of ~500 operations to depth 2 (quick) / 3 (thorough), every transition compared with the exact value model, every algebraic law instance evaluated on implementation values at every stored state; three-operand laws on the complete cube",
    assumptions=COMMON_ASSUMPTIONS + ["states are de-duplicated by raw value: sound because the library is stateless, equal values have equal futures"]),
  "C09": dict(cfgs=quick8,
